@@ -201,6 +201,23 @@ def abs_magnitudes(interp, ref_mb, data, ctx=None):
                 seen.add(t.buffer)
                 a = np.abs(np.frombuffer(np.asarray(b.data, dtype=np.uint8).tobytes(), dtype=np.float32))
                 b.data = np.frombuffer(a.tobytes(), dtype=np.uint8)
+    # a difference of large terms is small but inherits their quantization error: in the magnitude model SUB adds
+    sub_codes = [i for i, c in enumerate(m.operatorCodes) if c.builtinCode == BO.SUB]
+    if sub_codes:
+        add_idx = next((i for i, c in enumerate(m.operatorCodes) if c.builtinCode == BO.ADD), None)
+        if add_idx is None:
+            oc = s.OperatorCodeT()
+            oc.builtinCode, oc.deprecatedBuiltinCode, oc.version = BO.ADD, BO.ADD, 1
+            m.operatorCodes.append(oc)
+            add_idx = len(m.operatorCodes) - 1
+        for sg in m.subgraphs:
+            for op in sg.operators:
+                if op.opcodeIndex in sub_codes:
+                    fa = getattr(op.builtinOptions, "fusedActivationFunction", 0) if op.builtinOptions is not None else 0
+                    op.opcodeIndex = add_idx
+                    op.builtinOptionsType = s.BuiltinOptions.AddOptions
+                    op.builtinOptions = s.AddOptionsT()
+                    op.builtinOptions.fusedActivationFunction = fa
     mb = bytes(flatbuffer_utils.convert_object_to_bytearray(m))
     d = {k: [{a: (np.abs(v) if v.dtype.kind == "f" else v) for a, v in smp.items()} for smp in v_] for k, v_ in data.items()}
     r = interp.run(mb, d)
@@ -317,6 +334,16 @@ def compare_static(ctx, interp, case, res, fail, max_ops=4):
     c_ref = 0.06 if abits == 8 else 0.015
     ref, _ = reference_model(case.mb, res["out"])
     c = outputs_of(interp, ref, data, ctx) if ref is not None else ("none", None)
+    # kernels with a FIXED output range (tanh / logistic / softmax: step 1/128 or 1/256 at 8 bits whatever the data) put a floor under
+    # the resolution of everything downstream, however small the calibrated magnitudes are
+    fixed_step = 0.0
+    for sg_ in mo.subgraphs:
+        for op_ in sg_.operators:
+            if pl.BO_NAME.get(mo.operatorCodes[op_.opcodeIndex].builtinCode) in ("TANH", "LOGISTIC", "SOFTMAX"):
+                for o_ in op_.outputs:
+                    qt_ = pl.quant_tuple(sg_.tensors[o_])
+                    if qt_:
+                        fixed_step = max(fixed_step, float.fromhex(qt_["scale"][0]))
     for sig in a[1]:
         sd = [x for x in (mo.signatureDefs or []) if x.signatureKey.decode() == sig]
         for oi, (ra, rb) in enumerate(zip(a[1][sig], b[1][sig])):
@@ -344,7 +371,7 @@ def compare_static(ctx, interp, case, res, fail, max_ops=4):
                                 step = float.fromhex(qt["scale"][0])
                 ymag = float(np.max(np.abs(yb)))
                 mag = max(ymag, amag.get((sig, k), 0.0))
-                tol = 8 * step + c_float * mag * nops + 1e-3
+                tol = 8 * step + 2 * fixed_step * nops + c_float * mag * nops + 1e-3 * mag + 1e-7
                 err = float(np.max(np.abs(ya - yb))) if ya.shape == yb.shape else float("inf")
                 off = err > tol
                 which = "float output"
@@ -354,17 +381,24 @@ def compare_static(ctx, interp, case, res, fail, max_ops=4):
                         # every quantized tensor is clipped to the range calibrated on the FLOAT model, so the integer model may sit
                         # anywhere between the two float models: allow their distance D on top of the activation-only term
                         dist = float(np.max(np.abs(yc - yb)))
-                        tol_r = 8 * step + c_ref * mag * nops + dist + 1e-3
+                        tol_r = 8 * step + 2 * fixed_step * nops + c_ref * mag * nops + dist + 1e-3 * mag + 1e-7
                         err_r = float(np.max(np.abs(ya - yc)))
                         if err_r > tol_r:
                             off, err, tol, which = True, err_r, tol_r, "output of the float model with the dequantized constants"
-                const = np.ptp(yb) > 0.5 * ymag and ymag > 1e-2 and np.ptp(yb) > 16 * step and yb.size > 1 and np.ptp(ya) == 0
+                const = np.ptp(yb) > 0.5 * ymag and ymag > 0 and np.ptp(yb) > 16 * max(step, fixed_step) and step > 0 and yb.size > 1 and np.ptp(ya) == 0
+                if const and c[0] == "ok":
+                    yc_ = np.asarray(c[1][sig][oi][k], dtype=np.float64)
+                    if yc_.shape == ya.shape and np.ptp(yc_) == 0:
+                        const = False   # the float model with the stored constants is constant too (weights below the resolution floor)
                 if off or const:
                     cls = localise(interp, res["out"], ref if (c[0] == "ok" and which != "float output") else case.mb, data,
-                                   lambda mag_: (c_ref if which != "float output" else c_float) * mag_ + 8 * step + 1e-3, ctx, constant=const)
+                                   lambda mag_: (c_ref if which != "float output" else c_float) * mag_ + 8 * step + 1e-3 * mag_ + 1e-7, ctx, constant=const)
                     if cls is None:   # deviation below the localisation tolerance everywhere: blame the output's own producer
                         cls = producer_class(res["out"], sig, k)
                     if const:
+                        own = producer_class(res["out"], sig, k)
+                        if own and ":" in own:
+                            cls = own   # the operator computing this very output belongs to a structurally recognisable class
                         return fail(f"static-range output {k} is constant although the float output is not (first operator off: {cls})",
                                     f"c07-constant:{cls}")
                     return fail(f"static-range output {k} is {err:.4g} away from the {which} "
